@@ -940,6 +940,8 @@ package nutsdb
 //@   at call buildBPTreeIdx: assert[C10,C11] has(db.committedTxIds, r.H.meta.txID)
 //@   at call buildActiveBPTreeIdx: assert[C10,C11] has(db.committedTxIds, r.H.meta.txID)
 //@   at call buildOtherIdxes: assert[C10,C11,C08] has(db.committedTxIds, r.H.meta.txID)
+//@   at call buildBPTreeIdx: assert[C04,C08] $arg1 == string(r.H.meta.bucket) && $arg2 == r
+//@   at call buildOtherIdxes: assert[C04,C08] $arg1 == string(r.H.meta.bucket) && $arg2 == r
 
 // ---------------------------------------------------------------------------
 // The two RWManager implementations against the interface contract (C19)
